@@ -16,6 +16,14 @@ impl<'a> Tokenizer<'a> {
     }
 }
 
+/// Integer literals that do not fit an `i64` fall back to a `Float` of the same text.
+fn integer_or_float(text: &str) -> Option<Number> {
+    match text.parse::<i64>() {
+        Ok(i) => Some(Number::Integer(i)),
+        Err(_) => Some(Number::Float(text.parse::<f64>().ok()?)),
+    }
+}
+
 impl<'a> Iterator for Tokenizer<'a> {
     type Item = Token;
 
@@ -52,61 +60,41 @@ impl<'a> Iterator for Tokenizer<'a> {
                             break;
                         }
                     }
-                    Some(Token::Num(Number::Float(number.parse::<f64>().unwrap())))
+                    Some(Token::Num(Number::Float(number.parse::<f64>().ok()?)))
                 } else {
                     None
                 }
             }
-            Some('⁰') => Some(Token::Superscript(Number::Integer(
-                deserialize_superscript_number(&current_char?, &mut self.expr)
-                    .parse::<i64>()
-                    .unwrap(),
-            ))),
-            Some('¹') => Some(Token::Superscript(Number::Integer(
-                deserialize_superscript_number(&current_char?, &mut self.expr)
-                    .parse::<i64>()
-                    .unwrap(),
-            ))),
-            Some('²') => Some(Token::Superscript(Number::Integer(
-                deserialize_superscript_number(&current_char?, &mut self.expr)
-                    .parse::<i64>()
-                    .unwrap(),
-            ))),
-            Some('³') => Some(Token::Superscript(Number::Integer(
-                deserialize_superscript_number(&current_char?, &mut self.expr)
-                    .parse::<i64>()
-                    .unwrap(),
-            ))),
-            Some('⁴') => Some(Token::Superscript(Number::Integer(
-                deserialize_superscript_number(&current_char?, &mut self.expr)
-                    .parse::<i64>()
-                    .unwrap(),
-            ))),
-            Some('⁵') => Some(Token::Superscript(Number::Integer(
-                deserialize_superscript_number(&current_char?, &mut self.expr)
-                    .parse::<i64>()
-                    .unwrap(),
-            ))),
-            Some('⁶') => Some(Token::Superscript(Number::Integer(
-                deserialize_superscript_number(&current_char?, &mut self.expr)
-                    .parse::<i64>()
-                    .unwrap(),
-            ))),
-            Some('⁷') => Some(Token::Superscript(Number::Integer(
-                deserialize_superscript_number(&current_char?, &mut self.expr)
-                    .parse::<i64>()
-                    .unwrap(),
-            ))),
-            Some('⁸') => Some(Token::Superscript(Number::Integer(
-                deserialize_superscript_number(&current_char?, &mut self.expr)
-                    .parse::<i64>()
-                    .unwrap(),
-            ))),
-            Some('⁹') => Some(Token::Superscript(Number::Integer(
-                deserialize_superscript_number(&current_char?, &mut self.expr)
-                    .parse::<i64>()
-                    .unwrap(),
-            ))),
+            Some('⁰') => Some(Token::Superscript(integer_or_float(
+                &deserialize_superscript_number(&current_char?, &mut self.expr),
+            )?)),
+            Some('¹') => Some(Token::Superscript(integer_or_float(
+                &deserialize_superscript_number(&current_char?, &mut self.expr),
+            )?)),
+            Some('²') => Some(Token::Superscript(integer_or_float(
+                &deserialize_superscript_number(&current_char?, &mut self.expr),
+            )?)),
+            Some('³') => Some(Token::Superscript(integer_or_float(
+                &deserialize_superscript_number(&current_char?, &mut self.expr),
+            )?)),
+            Some('⁴') => Some(Token::Superscript(integer_or_float(
+                &deserialize_superscript_number(&current_char?, &mut self.expr),
+            )?)),
+            Some('⁵') => Some(Token::Superscript(integer_or_float(
+                &deserialize_superscript_number(&current_char?, &mut self.expr),
+            )?)),
+            Some('⁶') => Some(Token::Superscript(integer_or_float(
+                &deserialize_superscript_number(&current_char?, &mut self.expr),
+            )?)),
+            Some('⁷') => Some(Token::Superscript(integer_or_float(
+                &deserialize_superscript_number(&current_char?, &mut self.expr),
+            )?)),
+            Some('⁸') => Some(Token::Superscript(integer_or_float(
+                &deserialize_superscript_number(&current_char?, &mut self.expr),
+            )?)),
+            Some('⁹') => Some(Token::Superscript(integer_or_float(
+                &deserialize_superscript_number(&current_char?, &mut self.expr),
+            )?)),
             Some('0'..='9') => {
                 let mut floatting = false;
                 let mut number = current_char?.to_string();
@@ -123,9 +111,9 @@ impl<'a> Iterator for Tokenizer<'a> {
                     }
                 }
                 if floatting {
-                    Some(Token::Num(Number::Float(number.parse::<f64>().unwrap())))
+                    Some(Token::Num(Number::Float(number.parse::<f64>().ok()?)))
                 } else {
-                    Some(Token::Num(Number::Integer(number.parse::<i64>().unwrap())))
+                    Some(Token::Num(integer_or_float(&number)?))
                 }
             }
             Some('a') => match self.expr.clone().take(6).collect::<String>().as_str() {
